@@ -319,11 +319,67 @@ class _TaskGen(object):
                          'order': rng.choice(self.k['orders'])})
 
     def add_limit(self):
+        """A Limit / Residue used for a short history of its own: one to three evaluations (points
+        with and without a singularity, via __call__ or .limit), attribute changes and restores in
+        between, optionally on a step generator shared with the derivative objects of the task."""
         rng = self.rng
-        op = {'op': 'limit', 'fun': {'name': rng.choice(['exp', 'sin', 'runge', 'poly3'])},
-              'x': {'t': 'float', 'v': rng.choice(X_SCALARS)},
-              'method': rng.choice(['above', 'below']), 'order': rng.choice([2, 4, 6])}
+        residue = rng.random() < 0.3
+        if residue:
+            name = rng.choice(['pole1', 'pole2', 'pole_mixed'])
+            po = 2 if name == 'pole2' else 1
+            order = po + rng.choice([1, 2, 3])
+            op = {'op': 'limit', 'cls': 'Residue', 'fun': {'name': name}, 'pole_order': po,
+                  'order': order}
+        else:
+            name = rng.choice(['sinc', 'cosq', 'expq', 'xsin3', 'bern', 'exp', 'runge'])
+            order = rng.choice([2, 3, 4, 6])
+            op = {'op': 'limit', 'cls': 'Limit', 'fun': {'name': name}, 'order': order}
+        op['method'] = rng.choice(['above', 'below'])
+        op['full'] = rng.random() < 0.8
+        r = rng.random()
+        if self.gens and r < max(self.k['p_sharegen'], 0.35):
+            op['step'] = {'gen': rng.choice(self.gens)[0]}
+        elif r < 0.55:
+            op['step'] = rng.choice([0.01, 1e-3, 0.1, 0.25])
+        else:
+            op['step'] = None
+        if not isinstance(op['step'], dict) and rng.random() < 0.3:
+            op['gopts'] = rng.choice([{'path': 'spiral'}, {'step_ratio': 2.0}, {'num_steps': 9},
+                                      {'step_ratio': 3.0}, {'offset': 1}, {'scale': 1.5}])
+
+        def point():
+            t = rng.random()
+            if t < 0.45:
+                return {'t': 'float', 'v': 0.0}
+            if t < 0.7:
+                k = rng.randint(2, 4)
+                return {'t': 'arr', 'v': [rng.choice([0.0, 0.0, 0.5, -1.0, 1e-3]) for _ in range(k)],
+                        'shape': [k], 'dtype': 'float64'}
+            return {'t': 'float', 'v': rng.choice(X_SCALARS)}
+
+        def evaluation():
+            return {'x': point(), 'via': 'limit' if (residue or rng.random() < 0.3) else 'call'}
+        steps = [evaluation()]
+        for _ in range(rng.choice([0, 0, 1, 1, 2])):
+            if rng.random() < 0.5:
+                attr = rng.choice(['method', 'order'])
+                if attr == 'method':
+                    cur, val = op['method'], ('below' if op['method'] == 'above' else 'above')
+                else:
+                    cur = op['order']
+                    val = cur + rng.choice([1, 2])
+                steps.append({'set': attr, 'value': val})
+                if rng.random() < 0.5:
+                    steps.append(evaluation())
+                if rng.random() < 0.7:
+                    steps.append({'set': attr, 'value': cur})       # ... and restore
+            steps.append(evaluation())
+        op['steps'] = steps
+        if rng.random() < self.k['p_fault'] * 0.5:
+            op['fault'] = {'kind': 'f_raise', 'at': rng.choice([1, 2, 3, 5, 8, 13]),
+                           'exc': rng.choice(['ValueError', 'ZeroDivisionError'])}
         self.ops.append(op)
+        return op
 
     def add_dropgc(self):
         cands = [o for o in self.live()
@@ -457,7 +513,7 @@ class _TaskGen(object):
                 self.add_sweep()
         if not self.live():
             self.add_new()
-        if self.ops[-1]['op'] not in ('call', 'ddiff'):
+        if self.ops[-1]['op'] not in ('call', 'ddiff', 'limit'):
             if rng.random() < 0.5 and any(self.changed[o] for o in self.live()):
                 self.add_restore()
             self.add_call(allow_fault=False)
@@ -482,7 +538,7 @@ def _knobs(rng, mode):
                      [0, 1, 2, 3]])
     orders = rng.choice([[2, 4], [1, 2, 3, 4], [2, 4, 6, 8], [2], [1, 2, 3, 4, 5, 6, 7, 8], [2, 6]])
     weights = {'newgen': 0.5, 'new': 2.0, 'call': 5.0, 'set': 1.5, 'restore': 1.0, 'cache': 1.0,
-               'ddiff': 0.5, 'rule': 0.5, 'steps': 0.5, 'limit': 0.2, 'dropgc': 0.3, 'sweep': 0.6}
+               'ddiff': 0.5, 'rule': 0.5, 'steps': 0.5, 'limit': 0.6, 'dropgc': 0.3, 'sweep': 0.6}
     for key in list(weights):
         u = rng.random()
         if u < 0.25 and key != 'call':
@@ -598,7 +654,7 @@ def generate(run_seed, mode='seq', ntasks=None):
     if nt > 1:
         # PCT-style targets: ordinals of hot yield points, drawn over the estimated number of hot
         # points of this plan (about 70 per judged call) so that every one of them is equally likely
-        ncalls = sum(1 for t in tasks for o in t['ops'] if o['op'] in ('call', 'ddiff'))
+        ncalls = sum(1 for t in tasks for o in t['ops'] if o['op'] in ('call', 'ddiff', 'limit'))
         hot_est = max(30, int(70 * ncalls * rng.choice([0.5, 1.0, 1.0, 2.0])))
         plan['sched']['targets'] = sorted(set(rng.randint(1, hot_est)
                                               for _ in range(rng.choice([0, 1, 2, 4, 8, 16]))))
@@ -671,6 +727,13 @@ def miniplans(task_ops, idx):
         pre = [copy.deepcopy(o) for o in task_ops[:idx] if o['op'] == 'newgen' and o['g'] in gens]
         plan = {'property': 'C09', 'tasks': [{'ops': pre + [judged]}], 'trace': False}
         return plan, None
+    if op['op'] == 'limit':
+        gens = [op['step']['gen']] if isinstance(op.get('step'), dict) else []
+        pre = [copy.deepcopy(o) for o in task_ops[:idx] if o['op'] == 'newgen' and o['g'] in gens]
+        plan = {'property': 'C09', 'tasks': [{'ops': pre + [judged]}], 'trace': False}
+        fresh = dict(copy.deepcopy(judged), fresh_each=True)
+        norm = {'property': 'C09', 'tasks': [{'ops': copy.deepcopy(pre) + [fresh]}], 'trace': False}
+        return plan, norm
     need_o, need_g = _closure(task_ops, idx, [op['o']])
     if need_o is None:
         return None, None
@@ -830,7 +893,7 @@ def judge(plan, result, refs):
             fop = plan['tasks'][ob['task']]['ops'][ob['idx']]
             if fop['op'] in ('set', 'new') and 'o' in fop:
                 failed_set.add(fop['o'])
-        if ob['op'] not in ('call', 'ddiff') or 'rec' not in ob:
+        if ob['op'] not in ('call', 'ddiff', 'limit') or 'rec' not in ob or ob.get('diag'):
             continue
         tid, idx = ob['task'], ob['idx']
         ops = plan['tasks'][tid]['ops']
@@ -867,7 +930,7 @@ def judge(plan, result, refs):
                 kind, ref, ref_plan = 'config_mismatch', ref_n, norm_plan
         if kind:
             op = ops[idx]
-            cls = 'directionaldiff'
+            cls = op.get('cls', 'Limit') if op['op'] == 'limit' else 'directionaldiff'
             if op['op'] == 'call':
                 _, new = _find_new(ops, idx, op['o'])
                 cls = new['cls']
